@@ -27,7 +27,9 @@ package ledger
 //   queue batches (rounds s..s+k-1 persisted at once => a single committedUpTo, commit ranges
 //   that overshoot catchpoint rounds; k in {3,7} quick, {2,3,5,7,10} thorough, every s, two
 //   schedules), catchpoint tracking switched on at the restart (node ran untracked before; the
-//   trie is rebuilt from the tables; every restart round, three schedules), crash right after
+//   trie is rebuilt from the tables; every restart round, three schedules), tracking PAUSE
+//   (tracking on, restart with tracking off after round p, k in {2,5} (thorough {1,2,3,5,8})
+//   rounds with flushes, restart with tracking on; every p), crash right after
 //   the tracker DB transaction of a commit + restart (postCommit / postCommitUnlocked never run;
 //   after every round >= 5, preceded by 0 / 3 / 6 rounds without any commit so that the crashed
 //   commit range overshoots first-stage and catchpoint rounds), MaxAcctLookback 2
@@ -92,6 +94,8 @@ type c14Job struct {
 	burstN  int
 	crash   bool
 	lag     int
+	pauseAt int
+	resume  int
 	node    c14NodeCfg
 	cfgName string
 }
@@ -105,7 +109,7 @@ func (j *c14Job) describe(hs []*c14History) map[string]any {
 			sb.WriteByte('0')
 		}
 	}
-	return map[string]any{"engine": "c14", "history": hs[j.hist].Name, "schedule": j.sched, "flush_bits": sb.String(), "restart_after": j.restart, "burst_start": j.burstAt, "burst_len": j.burstN, "crash_after_db_commit": j.crash, "crash_lag": j.lag,
+	return map[string]any{"engine": "c14", "history": hs[j.hist].Name, "schedule": j.sched, "flush_bits": sb.String(), "restart_after": j.restart, "burst_start": j.burstAt, "burst_len": j.burstN, "crash_after_db_commit": j.crash, "crash_lag": j.lag, "tracking_off_after": j.pauseAt, "tracking_on_after": j.resume,
 		"reopen": j.reopen, "late_enable": j.node.LateEnable, "max_acct_lookback": j.node.MaxAcctLookback, "stored": j.node.Stored, "in_mem": j.node.InMem, "no_lru": j.node.NoLRU, "trie_config": j.cfgName}
 }
 
@@ -240,7 +244,7 @@ func TestVerif_C14(t *testing.T) {
 				results[i].err = fmt.Errorf("OpenLedger: %v", err)
 				return
 			}
-			o, err := c14RunTraced(n, h, c14Plan{Flush: j.flush, RestartAt: j.restart, Reopen: j.reopen, BurstStart: j.burstAt, BurstLen: j.burstN, Crash: j.crash, CrashLag: j.lag}, &results[i].states)
+			o, err := c14RunTraced(n, h, c14Plan{Flush: j.flush, RestartAt: j.restart, Reopen: j.reopen, BurstStart: j.burstAt, BurstLen: j.burstN, Crash: j.crash, CrashLag: j.lag, PauseAt: j.pauseAt, ResumeAt: j.resume}, &results[i].states)
 			results[i].obs, results[i].err, results[i].ops = o, err, n.ops
 			n.close()
 			if !j.node.InMem {
@@ -416,6 +420,16 @@ func TestVerif_C14(t *testing.T) {
 					for rs := 5 + lag; rs <= rounds-3; rs++ {
 						si := (rs + lag) % 2
 						jobs = append(jobs, c14Job{hist: hi, sched: schedNames[si], flush: scheds[si], restart: rs, crash: true, lag: lag, cfgName: tc.name, node: c14NodeCfg{Stored: (rs+lag)%3 != 0, InMem: true, NoLRU: true}})
+					}
+				}
+				// tracking pause: on -> restart with tracking off after round p -> k rounds (flushing) ->
+				// restart with tracking on: the trie must be rebuilt, not the stale one adopted.
+				// File backed + close/OpenLedger: reloadLedger keeps the catchpointTracker object and
+				// its interval, so tracking cannot be switched off in process.
+				for _, k := range ve.Pick([]int{2, 5}, []int{1, 2, 3, 5, 8}) {
+					for p := 1; p+k <= rounds-6; p++ {
+						si := []int{0, 2, 1}[(p+k)%3]
+						jobs = append(jobs, c14Job{hist: hi, sched: schedNames[si], flush: scheds[si], pauseAt: p, resume: p + k, reopen: true, cfgName: tc.name, node: c14NodeCfg{Stored: (p+k)%2 == 0, NoLRU: true}})
 					}
 				}
 				// catchpoint tracking enabled at the restart (trie rebuilt from the tables)
